@@ -28,11 +28,12 @@ type camelFam struct{}
 func init() { core.Register("camel", camelFam{}) }
 
 var camelPools = map[string][][]rune{
-	// per class: ASCII, 2-byte, 3/4-byte pools
-	"l": {[]rune("abcxyz"), []rune("éßωяµ"), []rune("ａｚ𝐚ᴀ")},
-	"u": {[]rune("ABCXYZ"), []rune("ÉΩЯÜ"), []rune("ＡＺ𝐀Ⴀ")},
-	"d": {[]rune("0159"), []rune("٣۵߂"), []rune("３９𝟗")},
-	"o": {[]rune("_- .$/"), []rune("·ǅ́§ª"), []rune("世€😀 ⅷ")},
+	// per class: ASCII, 2-byte, 3/4-byte pools, and letters whose other case has another UTF-8 width (U+0250/U+2C6F ..: 2 bytes
+	// lower, 3 bytes upper; long s, dotless i: capital 1 byte; Kelvin sign, dotted capital I: lower form shorter)
+	"l": {[]rune("abcxyz"), []rune("éßωяµ"), []rune("ａｚ𝐚ᴀ"), []rune("\u0250\u026b\u027d\u023f\u017f\u0131")},
+	"u": {[]rune("ABCXYZ"), []rune("ÉΩЯÜ"), []rune("ＡＺ𝐀Ⴀ"), []rune("\u2c6f\u2c62\u2c64\u2c7e\u212a\u0130")},
+	"d": {[]rune("0159"), []rune("٣۵߂"), []rune("３９𝟗"), []rune("\u0663\uff19")},
+	"o": {[]rune("_- .$/"), []rune("·ǅ́§ª"), []rune("世€😀 ⅷ"), []rune("_-\u01c5")},
 }
 
 func classOf(r rune) string {
@@ -181,8 +182,8 @@ func (camelFam) Exec(c core.CaseIn, rng *rand.Rand, emit func(cas, conc, obs any
 		emit(map[string]any{"cls": conc["cls"]}, conc, camelRun(in))
 		return nil
 	}
-	// three concretisations per class string: ASCII, 2-byte, 3/4-byte runes
-	for variant := 0; variant < 3; variant++ {
+	// four concretisations per class string: ASCII, 2-byte, 3/4-byte runes, letters that change width with their case
+	for variant := 0; variant < 4; variant++ {
 		rs := make([]rune, 0, len(cc.Cls))
 		for _, cl := range cc.Cls {
 			pools, ok := camelPools[cl]
